@@ -39,7 +39,7 @@ Variable c : cfg.
 Lemma send_bad_ssum : forall s e k f, pre s -> takes_id e = true -> newrec s e = [] ->
   ssum c s e (set_ids s (nsend s + 1) (nload s) (ntimer s)) [OOutcome (nsend s) (OFail k f)].
 Proof.
-  intros s e k f [W ST PO PL] T NR. constructor; simpl; auto.
+  intros s e k f [W ST PO PL BK] T NR. constructor; simpl; auto.
   - unfold plus, newid; rewrite T. constructor; simpl.
     + intros x [<- |[]]. apply in_or_app; simpl; auto.
     + intros _; repeat constructor; simpl; tauto.
@@ -54,7 +54,7 @@ Qed.
 Lemma send_ok_ssum : forall s t ch cnt b s' o, pre s -> (cnt <? 1) || (b <? 0) = false -> stopping s = false ->
   step c s (ESend t ch cnt b) = (s', o) -> ssum c s (ESend t ch cnt b) s' o.
 Proof.
-  intros s t ch cnt b s' o [W ST PO PL] V NST H. unfold step, core in H. rewrite V, NST in H. cbn [apply_epi] in H.
+  intros s t ch cnt b s' o [W ST PO PL BK] V NST H. unfold step, core in H. rewrite V, NST in H. cbn [apply_epi] in H.
   set (x := {| s_id := nsend s; s_topic := t; s_choice := ch; s_cnt := cnt; s_bytes := b |}) in *.
   set (s0 := set_ids s (nsend s + 1) (nload s) (ntimer s)) in *.
   set (s1 := set_outstanding (set_queue s0 (queue s0 ++ [x]) (wcnt s0 + cnt) (wbytes s0 + b)) (outstanding s0 ++ [nsend s])) in *.
@@ -97,7 +97,7 @@ Qed.
 
 Lemma cancel_ssum : forall s sid s' o, pre s -> step c s (ECancel sid) = (s', o) -> ssum c s (ECancel sid) s' o.
 Proof.
-  intros s sid s' o [W ST PO PL] H. unfold step, core in H.
+  intros s sid s' o [W ST PO PL BK] H. unfold step, core in H.
   destruct (cancel_send s sid) as [s1 o1] eqn:E. cbn [apply_epi] in H. inv H. rewrite app_nil_r.
   destruct (cancel_send_sum _ _ _ _ E) as (F & AF & NP & P & S & N & QI & QK).
   apply ssum_of_stepsum; auto; [|rewrite S, P; auto|apply all_fail_justified; auto].
@@ -110,7 +110,7 @@ Qed.
 
 Lemma tick_ssum : forall s s' o, pre s -> step c s ETick = (s', o) -> ssum c s ETick s' o.
 Proof.
-  intros s s' o [W ST PO PL] H. unfold step, core in H. destruct (looper s); cbn [apply_epi] in H.
+  intros s s' o [W ST PO PL BK] H. unfold step, core in H. destruct (looper s); cbn [apply_epi] in H.
   - destruct (try_send_batch c s) as [s2 o2] eqn:E. inv H. simpl.
     destruct (ph s) eqn:P.
     { pose proof (try_tsum _ _ _ _ P E) as T. apply ssum_of_stepsum; auto.
@@ -127,7 +127,7 @@ Qed.
 Lemma meta_ssum : forall s e s' o, pre s ->
   (exists t err hp, e = EMetaSet t err hp) \/ e = EMetaClearAll -> step c s e = (s', o) -> ssum c s e s' o.
 Proof.
-  intros s e s' o [W ST PO PL] HE H.
+  intros s e s' o [W ST PO PL BK] HE H.
   assert (T : takes_id e = false) by (destruct HE as [(t & err & hp & ->)| ->]; reflexivity).
   assert (X : exists cch, s' = set_client s (api s) cch /\ o = []).
   { destruct HE as [(t & err & hp & ->)| ->]; unfold step, core in H; cbn [apply_epi] in H; inv H; eauto. }
